@@ -17,8 +17,11 @@ def run(tier, seed):
         rule=('CrossHair conditions over symbolic indices into a pool of 13 item names incl. case variants and 3 item '
               'classes: equality is symmetric and case-insensitive, equal items hash equal, dict/set/list membership '
               'agree with equality, comparison with strings, scope_name/local_name under case permutation, and '
-              'DuplicateKernel._get_new_item_name under case permutation of item and suffixes'),
-        functions=['loki.batch.item.Item.__eq__/__hash__/scope_name/local_name', 'loki.transformations.dependency.DuplicateKernel._get_new_item_name'],
+              'DuplicateKernel._get_new_item_name under case permutation of item and suffixes; ItemFactory look-up of definitions '
+              'behind unqualified USE (get_or_create_module_definitions_from_candidates) under case permutation of the local '
+              'name and of the candidate module names, on a module read by the REGEX frontend'),
+        functions=['loki.batch.item.Item.__eq__/__hash__/scope_name/local_name', 'loki.transformations.dependency.DuplicateKernel._get_new_item_name',
+                   'loki.batch.item_factory.ItemFactory.get_or_create_module_definitions_from_candidates'],
         bounds={'item_names': 13, 'classes': 'Item, ProcedureItem, ModuleItem', 'suffixes': 4,
                 'outside': 'dependency graph, processing order and generated code under case permutation (no value domain: not claimed)'},
         assumptions=['items are built without source (names only)'],
